@@ -106,6 +106,22 @@ TRACED = ["QMI_Task.update_settings", "QMI_TaskRunner.set_settings", "QMI_TaskRu
           "_TaskThread.run", "_TaskThread.start_task", "_TaskThread.stop_task"]
 
 
+T_MAX = 3600.0     # virtual seconds; far beyond every sleep / timeout / script duration used by the scenarios
+
+
+def bound_virtual_time(s, before_report=None):
+    """An operation that never returns must look the same whether the scheduler sees a dead-lock (nothing runnable,
+    no timed waiter) or unbounded progress of the virtual clock (e.g. a join() that polls with a timeout): once
+    the clock passes T_MAX the schedule is ended and reported like a dead-lock ("blocked for ever")."""
+    def hook(label):
+        if s.clock > T_MAX and s.on_deadlock:
+            s.yield_hook = None
+            if before_report:
+                before_report()
+            s.on_deadlock({"kind": "blocked-for-ever", "clock": s.clock, "why": "virtual clock passed T_MAX"})
+    s.yield_hook = hook
+
+
 def make_exc(kind, stop_cls):
     """The exception a scripted run() / task constructor raises: the class is an input."""
     if kind == "exc":
@@ -298,6 +314,7 @@ def scenario(s, script, ops, window, lines=False, init_fail=None, rep="tuple"):
         if prev_dl:
             prev_dl(info)
     s.on_deadlock = on_deadlock
+    bound_virtual_time(s)        # (finalize runs inside on_deadlock)
 
     ctx = C.QMI_Context("c10ctx")
     ctx.start()
@@ -590,7 +607,7 @@ def oracle(script, flat_ops_expected_blocked, res):
     st = res["status"]
     o = res.get("obs")
     if st in ("hang", "abort", "crash", "error") or o is None or o.get("trace") is None:
-        return "harness:" + st, "schedule did not finish (%s): %s" % (st, (res.get("trace") or res.get("info") or "")[:400])
+        return "harness:" + st, "schedule did not finish (%s): %s" % (st, str(res.get("trace") or res.get("info") or "")[:400])
     ops, internal = parse(o)
     if st == "deadlock":
         pend = [x for x in ops if x.ret is None]
@@ -897,7 +914,7 @@ def oracle_initfail(res):
     if st == "deadlock":
         return "init-deadlock", "make_task never returned after the task constructor raised (dead-lock)"
     if st != "ok" or o is None or o.get("trace") is None:
-        return "harness:" + st, "schedule did not finish (%s): %s" % (st, (res.get("trace") or res.get("info") or "")[:400])
+        return "harness:" + st, "schedule did not finish (%s): %s" % (st, str(res.get("trace") or res.get("info") or "")[:400])
     ops, internal = parse(o)
     mk = [x for x in ops if x.name == "make"]
     if not mk or mk[0].res != ["exc", "QMI_TaskInitException"]:
@@ -956,6 +973,7 @@ def scenario_loop(s, policy, period, t_init, tstop, durs, lines=False):
         def loop_finalize(self):
             obs["fin"].append([s.clock, nt()])
 
+    bound_virtual_time(s)
     ctx = C.QMI_Context("c10loop")
     ctx.start()
     if lines:
@@ -1004,7 +1022,7 @@ def oracle_loop(policy, p, t_init, tstop, durs, res):
     if st == "deadlock":
         return "loop-deadlock", "the loop task never ended (dead-lock)"
     if st != "ok" or o is None:
-        return "harness:" + st, "schedule did not finish (%s): %s" % (st, (res.get("trace") or res.get("info") or "")[:400])
+        return "harness:" + st, "schedule did not finish (%s): %s" % (st, str(res.get("trace") or res.get("info") or "")[:400])
     its, fin, t0 = loop_obs_ticks(o)
     if o["join"] != ["none"]:
         return "loop-join", "join() gave %s" % (o["join"],)
